@@ -8,6 +8,7 @@ import RxModel.Driver.SuiteConvert
 import RxModel.Driver.SuiteShare
 import RxModel.Driver.SuiteMulti
 import RxModel.Driver.SuiteLocks
+import RxModel.Driver.SuiteComposite
 /-
   rxdriver: reads the suite file on stdin, runs the model, prints one line per
   external event — the lines the harness prints for the real code.
@@ -67,6 +68,7 @@ def runCase (c : Case) : List String :=
   | "multi" => MultiS.runMultiCase c.id ((c.field "pipe").headD (.atom "")) c.events
   | "locks" => LocksS.runLocksCase c.id (c.field "subs") c.events
   | "behaviorrace" => LocksS.runBehaviorRace c.id c.events
+  | "composite" => CompS.runCompositeCase c.id c.field c.events
   | s => [s!"{c.id}.0 UNKNOWN-SUITE {s}"]
 
 partial def loop (h : IO.FS.Stream) (out : IO.FS.Stream) (cur : Case) : IO Unit := do
